@@ -748,6 +748,9 @@ func (rn *runner) unmarshalCase(t *Target, name string, enc []byte, applied []st
 			Violation(rn.prop, "unmarshal", "merge/singular-message-last-wins", "a singular message field occurring more than once is replaced by its last occurrence instead of merged (here: the last occurrence alone lacks a required field)", desc, trunc(fmt.Sprint(want), 300), uerr.Error())
 			break
 		}
+		if !malformed && rn.prop == "C07" && refPartialErr == nil && len(want.GetUnknown()) > 0 && !rn.isMergeFinding(t, name, enc, nil, uerr) {
+			Violation("C07", "unmarshal", "unknown-fields-not-retained/input-rejected", "generated Unmarshal() rejected a valid encoding that carries unknown fields (they cannot be retained)", desc, trunc(fmt.Sprint(want), 300), uerr.Error())
+		}
 		if !malformed && rn.prop == "C06" && refPartialErr == nil {
 			Violation("C06", "unmarshal", "valid-encoding-rejected/"+errClass(uerr.Error()), "generated Unmarshal() rejected a valid encoding that the reference runtime accepts", desc, trunc(fmt.Sprint(want), 300), uerr.Error())
 		}
